@@ -179,6 +179,10 @@ def gen_loader(srcdir):
         for n in cl[c].body:
             need(isinstance(n, ast.FunctionDef) or (isinstance(n, ast.Expr) and isinstance(n.value, ast.Constant)),
                  f'{c}: class-level statement {U(n)[:60]} (a class-level cache or attribute?)')
+    for c in cl:
+        for name in M[c]:
+            need(not (name.startswith('__') and name.endswith('__')) or name == '__init__',
+                 f'{c}.{name}: special method on a loader class (__eq__/__hash__ would change what the cache key `self` means)')
     base = M['SgzLoader']
     need(sorted(base) == ['__init__', '_decompress', '_decompress_into_array', '_get_compressed_bytes', 'load_compressed_volume'],
          f'SgzLoader methods {sorted(base)}')
